@@ -317,7 +317,58 @@ def rule_status_table(ctx):
     ctx.covered('R08.5', 'status codes: positive REB_STATUS enumerators vs exceptions raised by Simulation.integrate; writers of USER/COLLISION/ESCAPE/ENCOUNTER', n, floor=11, samples=samples)
 
 
+def rule_exit_scans(ctx):
+    """R08.7: the escape and close-encounter scans of the heartbeat decide the returned status. They must range over the
+    real particles only (variational particles are tangent vectors, not positions), compare the squared distance with
+    the squared threshold in the right direction and set the matching status."""
+    from . import extents
+    tu = cfront.load_tu('rebound.c')
+    fn = tu.func('reb_run_heartbeat')
+    n = 0
+    samples = []
+    want = {'r.exit_max_distance': ('>', 'REB_STATUS_ESCAPE'), 'r.exit_min_distance': ('<', 'REB_STATUS_ENCOUNTER')}
+    seen = set()
+    for ifs in cfront.body(fn).get('inner', []):
+        if ifs.get('kind') != 'IfStmt':
+            continue
+        cond = render(ifs['inner'][0]).strip('()')
+        if cond not in want:
+            continue
+        seen.add(cond)
+        loops = extents.particle_loops(fn, ifs['inner'][1])
+        anchor(loops, 'particle scan under %s in reb_run_heartbeat' % cond)
+        outer_vars = {}
+        for f, var, bound, subs in loops:
+            n += 1
+            where = 'src/rebound.c:%s reb_run_heartbeat' % line_of(f)
+            if bound == extents.REAL:
+                outer_vars[var] = True
+                samples.append('%s: scan under %s over %s covers r->N - r->N_var' % (where, cond, ','.join(subs)))
+            elif bound in outer_vars:
+                pass    # inner loop of a pair scan: j < i
+            else:
+                ctx.report('R08.7', 'heartbeat:%s:extent' % cond.split('.')[-1], where,
+                           'the scan deciding the %s status runs over %s, not over the real particles r->N - r->N_var: variational particles (tangent vectors that grow with time) trigger the exit condition'
+                           % (want[cond][1], bound))
+        op, status = want[cond]
+        tests = [x for x in walk(ifs['inner'][1]) if x.get('kind') == 'IfStmt']
+        ok = False
+        for t in tests:
+            c = strip(t['inner'][0])
+            sets = [render(e['inner'][1]) for e in walk(t['inner'][1]) if cfront.is_assign(e) and render(e['inner'][0]) == 'r.status']
+            if c.get('kind') == 'BinaryOperator' and sets:
+                n += 1
+                if c['opcode'] != op or sets != [status]:
+                    ctx.report('R08.7', 'heartbeat:%s:test' % cond.split('.')[-1], 'src/rebound.c:%s reb_run_heartbeat' % line_of(t),
+                               'under %s the test is "%s" and sets %s; expected a "%s" comparison setting %s' % (cond, render(c), sets, op, status))
+                ok = True
+        anchor(ok, 'threshold test setting r->status under %s' % cond)
+    anchor(seen == set(want), 'both exit_max_distance and exit_min_distance scans in reb_run_heartbeat')
+    ctx.covered('R08.7', 'heartbeat exit scans: extent is the real particles, comparison direction and status code match the condition', n, floor=5, samples=samples)
+
+
 def run(ctx):
+    rule_exit_scans(ctx)
     rule_time_sums(ctx)
     rule_exit_machine(ctx)
     rule_sign_clamps(ctx)
